@@ -187,9 +187,9 @@ func c20NamespaceFunc(c *core.Ctx, f *flow.Func, fd *ast.FuncDecl, cons string, 
 					}
 				}
 			case *ast.ExprStmt:
-				if call, ok := s.X.(*ast.CallExpr); ok && direct[s] && calleeIs(f, call, c20WClose) {
-					sel := ast.Unparen(call.Fun).(*ast.SelectorExpr)
-					if valParam != nil && c20RootOrigin(f, sel.X) == valParam {
+				if call, ok := s.X.(*ast.CallExpr); ok && direct[s] {
+					wk, wrecv := c20Wrapper(f, call)
+					if wk == "close" && valParam != nil && c20RootOrigin(f, wrecv) == valParam {
 						closes = true
 					}
 				}
